@@ -76,6 +76,7 @@ def material():
     tok["es_kid"] = rjws.make_compact(json.dumps({"alg": "ES256", "kid": M["tp"]["ec"]}).encode(), b"payload-kid", "ES256", ref["ec"])
     tok["ed"] = rjws.make_compact(b'{"alg":"EdDSA"}', b"payload-ed", "EdDSA", ref["ed"])
     tok["rs"] = rjws.make_compact(b'{"alg":"RS256"}', b"payload-rs", "RS256", ref["rsa"])
+    tok["hs512"] = rjws.make_compact(b'{"alg":"HS512"}', b"payload-512", "HS512", ref["oct1"])
     tok["jwt"] = rjws.make_compact(b'{"alg":"HS256","typ":"JWT"}', b'{"sub":"alice","n":1}', "HS256", ref["oct1"])
 
     def jwe_tok(alg, keyname, enc="A128GCM"):
@@ -85,6 +86,7 @@ def material():
     tok["kw"] = jwe_tok("A128KW", "oct16")
     tok["dir"] = jwe_tok("dir", "oct16")
     tok["ecdh"] = jwe_tok("ECDH-ES", "ec")
+    tok["pbes2"] = jwe_tok("PBES2-HS256+A128KW", "oct1")
     M["tok"] = tok
     return M
 
@@ -317,6 +319,36 @@ def op_verify_ed_allowed(G):
     return jws.deserialize_compact(material()["tok"]["ed"], G.ed, algorithms=["EdDSA"]).payload.decode()
 
 
+def op_verify_hs256_list(G):
+    from joserfc import jws
+    return jws.deserialize_compact(material()["tok"]["hs_k1"], G.oct1, algorithms=["HS256"]).payload.decode()
+
+
+def op_verify_hs512_under_hs256_list(G):
+    from joserfc import jws
+    return jws.deserialize_compact(material()["tok"]["hs512"], G.oct1, algorithms=["HS256"]).payload.decode()     # not in the caller's list: refused
+
+
+def op_verify_hs512_list(G):
+    from joserfc import jws
+    return jws.deserialize_compact(material()["tok"]["hs512"], G.oct1, algorithms=["HS512"]).payload.decode()
+
+
+def op_sign_es_list(G):
+    from joserfc import jws
+    return _ref_verify(jws.serialize_compact({"alg": "ES256"}, b"msg-es-list", G.ec2, algorithms=["ES256", "ES384"]), "ec2", b"msg-es-list")
+
+
+def op_decrypt_pbes2_right(G):
+    from joserfc import jwe
+    return jwe.decrypt_compact(material()["tok"]["pbes2"], G.oct1, algorithms=["PBES2-HS256+A128KW", "A128GCM"]).plaintext.decode()
+
+
+def op_decrypt_pbes2_wrong(G):
+    from joserfc import jwe
+    return jwe.decrypt_compact(material()["tok"]["pbes2"], G.oct2, algorithms=["PBES2-HS256+A128KW", "A128GCM"]).plaintext.decode()   # other password: refused
+
+
 def op_read_kid(G):
     _ = (G.ec.kid, G.ed.kid, G.oct2.kid)     # merely looking at a key's kid (it may legitimately be None or the thumbprint by now)
     return "read"
@@ -395,7 +427,8 @@ OPS = {f.__name__[3:]: f for f in [
     op_sign_hs_k1, op_sign_hs_k2, op_verify_hs_k1, op_verify_hs_wrongkey, op_verify_hs_k2, op_sign_es, op_verify_es, op_verify_es_private_obj, op_sign_ed,
     op_verify_rs, op_sign_json_two, op_keyset_new, op_keyset_sign_pick, op_keyset_verify_kid, op_shared_keyset_dict, op_shared_keyset_sign, op_thumbprint,
     op_ensure_kid, op_export_public, op_export_pem, op_encrypt_kw, op_decrypt_kw, op_decrypt_dir, op_encrypt_ecdh, op_decrypt_ecdh, op_jwt_roundtrip,
-    op_verify_disallowed, op_verify_ed_allowed]}
+    op_verify_disallowed, op_verify_ed_allowed, op_verify_hs256_list, op_verify_hs512_under_hs256_list, op_verify_hs512_list, op_sign_es_list,
+    op_decrypt_pbes2_right, op_decrypt_pbes2_wrong]}
 # shared, lazily initialised objects an operation touches: pairs sharing one get every single-preemption schedule even in the quick tier
 TOUCH = {"sigkey_first_use_sign": {"ec_sig"}, "sigkey_encrypt_refused": {"ec_sig"}, "sigkey_keyset": {"ec_sig"}, "sigkey_export": {"ec_sig"},
          "encrypt_kw_foreign_header": {"A128GCM", "A128KW"}, "read_kid": {"ec", "ed"}, "sign_es": {"ec"}, "verify_es_private_obj": {"ec"}, "keyset_new": {"ec", "ed"}, "keyset_sign_pick": {"ec", "oct2"}, "thumbprint": {"ec", "ed", "oct1"},
@@ -404,11 +437,15 @@ TOUCH = {"sigkey_first_use_sign": {"ec_sig"}, "sigkey_encrypt_refused": {"ec_sig
          "shared_keyset_sign": {"ks"}, "shared_keyset_dict": {"ks"},
          # shared built-in algorithm objects
          "encrypt_kw": {"A128GCM", "A128KW"}, "encrypt_ecdh": {"A128GCM"}, "decrypt_kw": {"A128GCM", "A128KW"}, "decrypt_dir": {"A128GCM"}, "decrypt_ecdh": {"A128GCM"},
-         "custom_jwe_registry": {"A128GCM", "A128KW"}, "custom_registry_sign": {"HS256"}, "sign_unregistered_header": {"HS256"}}
+         "custom_jwe_registry": {"A128GCM", "A128KW"}, "custom_registry_sign": {"HS256"}, "sign_unregistered_header": {"HS256"},
+         # per-call allow-lists: whatever the library keeps between calls for them is shared
+         "verify_ed_allowed": {"allow-list"}, "verify_hs256_list": {"allow-list"}, "verify_hs512_under_hs256_list": {"allow-list"}, "verify_hs512_list": {"allow-list"},
+         "sign_es_list": {"allow-list"}, "decrypt_pbes2_right": {"PBES2"}, "decrypt_pbes2_wrong": {"PBES2"}}
 CORE = ["sign_hs_k1", "sign_hs_k2", "verify_hs_k1", "verify_hs_wrongkey", "sign_es", "verify_es_private_obj", "keyset_new", "keyset_sign_pick",
         "keyset_verify_kid", "thumbprint", "ensure_kid", "export_public", "encrypt_kw", "decrypt_kw", "encrypt_ecdh", "jwt_roundtrip", "shared_keyset_sign",
         "verify_disallowed", "verify_ed_allowed", "read_kid", "custom_registry_sign", "sign_unregistered_header",
-        "encrypt_kw_foreign_header", "sigkey_first_use_sign", "sigkey_encrypt_refused", "sigkey_keyset", "sigkey_export"]
+        "encrypt_kw_foreign_header", "sigkey_first_use_sign", "sigkey_encrypt_refused", "sigkey_keyset", "sigkey_export",
+        "verify_hs256_list", "verify_hs512_under_hs256_list", "verify_hs512_list", "decrypt_pbes2_right", "decrypt_pbes2_wrong"]
 
 
 def outcome(fn, G):
@@ -643,6 +680,12 @@ def run_schedule(a, b, schedule):
         if got != want:
             f[f"C20:outcome-differs-under-interleaving:{name}"] = (f"{name} (interleaved with {b if name == a else a}) gave {json.dumps(got)[:160]}; "
                                                                   f"in isolation {json.dumps(want)[:160]}")
+    # nothing may be left behind: both calls, repeated one after the other on the same objects, still behave as in isolation
+    for name in (a, b):
+        got = outcome(OPS[name], G)
+        if got != isolated(name):
+            f[f"C20:later-call-differs-after-interleaving:{name}"] = (f"{name} called again after {a} || {b} gave {json.dumps(got)[:160]}; "
+                                                                     f"in isolation {json.dumps(isolated(name))[:160]}")
     for msg in post_state(G):
         f[f"C20:shared-state-corrupted:{msg.split(' is ')[0][:50]}"] = f"after {a} || {b}: {msg}"
     return f, s.switches > 0, steps
